@@ -25,7 +25,7 @@ ASSUMPTIONS = [
     "known finding nsmap-member-order-only: a reloaded child whose map equals its parent's adopts the parent's key order; accepted only "
     "when both texts parse to equal objects and every difference is the member order of an 'nsmap' object",
 ]
-REQUIRED = ["root_sweep_trees", "vocabulary_sweep_trees", "trees_with_ids_that_are_not_strings", "loads_after_in_place_edit_of_an_earlier_load", "saved_again_after_in_place_edits", "aliasing_checks", "trees_with_clark_extras_key", "roundtrips", "legacy_roundtrips", "upgrades", "trees_with_tail", "trees_with_extras", "trees_with_prefix", "trees_with_nested_nsmap",
+REQUIRED = ["pair_sweep_trees", "root_sweep_trees", "vocabulary_sweep_trees", "trees_with_ids_that_are_not_strings", "loads_after_in_place_edit_of_an_earlier_load", "saved_again_after_in_place_edits", "aliasing_checks", "trees_with_clark_extras_key", "roundtrips", "legacy_roundtrips", "upgrades", "trees_with_tail", "trees_with_extras", "trees_with_prefix", "trees_with_nested_nsmap",
             "text_identical"]
 EXHAUSTIVE = {"quick": False, "thorough": False}
 
@@ -300,6 +300,28 @@ def vocabulary_content_sweep(ctx):
                 judge(ctx, root, f"root sweep: <{e}> prefix {px!r}, declared {sorted(map(str, m))}")
                 ctx.count("root_sweep_trees")
                 emlkit.discard(root)
+    # every parent/child pair the tables permit (and every name below a metadata island), unprefixed, in a document whose root declares the
+    # well-known namespaces: what is in scope says nothing about how an element is written
+    well_known = {"eml": "https://eml.ecoinformatics.org/eml-2.2.0", "stmml": "http://www.xml-cml.org/schema/stmml-1.2",
+                  "xsi": "http://www.w3.org/2001/XMLSchema-instance", "dc": "http://purl.org/dc/elements/1.1/"}
+    pairs = []
+    for parent in mrule.node_names():
+        try:
+            pairs += [(parent, c) for c in emlkit.spec_of(mrule.node_mappings[parent]).names]
+        except Exception:
+            pass
+    pairs += [("metadata", c) for c in ("unitList", "unit", "description", "title", "creator", "verifAnything")]
+    for parent, child in pairs:
+        root = Node("eml")
+        for k, v in well_known.items():
+            root.add_namespace(k, v)
+        p_ = Node(parent)
+        root.add_child(p_)
+        c_ = Node(child, content="x")
+        p_.add_child(c_)
+        judge(ctx, root, f"pair sweep: <{child}> below <{parent}>, well-known namespaces in scope")
+        ctx.count("pair_sweep_trees")
+        emlkit.discard(root)
     for ids in ([17, 18, 19, 20], [0, -1, 2.5, True], ["17", 17, "0017", "urn:uuid:x"]):
         root = Node("dataset", id=ids[0])
         a = Node("title", id=ids[1], content="t")
